@@ -33,8 +33,21 @@ _type_cache = {}
 _cont_counter = [0]
 
 
-def mk_type(t):
+def mk_type(t, fresh=False):
+    """the library type for a type S-expression.  fresh=True: every class object (this one and the nested ones) is
+    created anew by evaluating the type expression again, as separately spelled annotations do"""
     key = show(t)
+    if fresh and not isinstance(t, str):
+        k = t[0]
+        if k in ('bv', 'bl', 'Bv', 'Bl'):
+            return {'bv': Bitvector, 'bl': Bitlist, 'Bv': ByteVector, 'Bl': ByteList}[k][int(t[1])]
+        if k in ('vec', 'list'):
+            return (Vector if k == 'vec' else List)[mk_type(t[1], True), int(t[2])]
+        if k == 'union':
+            return Union[tuple(None if o == 'none' else mk_type(o, True) for o in t[1:])]
+        if k == 'cont':
+            _cont_counter[0] += 1
+            return type('F%d' % _cont_counter[0], (Container,), {'__annotations__': {'f%d' % i: mk_type(ft, True) for i, ft in enumerate(t[1:])}})
     if key in _type_cache:
         return _type_cache[key]
     if isinstance(t, str):
@@ -80,8 +93,12 @@ def mk_container(t, key):
         base_ann = {names[i]: types[i] for i in range(cut)}
         derived_ann = {names[i]: types[i] for i in range(cut, n)}
         if (hv >> 9) % 3 == 0:
-            # the base declares f0 with another type; the derived class re-declares it (same position)
-            base_ann[names[0]] = uint8 if types[0] is not uint8 else uint16
+            # the base declares f0 with another type; the derived class re-declares it (same position); every third time the
+            # other type differs in being fixed-size / variable-size
+            if (hv >> 13) % 3 == 0:
+                base_ann[names[0]] = List[uint8, 4] if types[0].is_fixed_byte_length() else uint8
+            else:
+                base_ann[names[0]] = uint8 if types[0] is not uint8 else uint16
             derived_ann = dict([(names[0], types[0])] + list(derived_ann.items()))
         Base = type('B%d' % _cont_counter[0], (Container,), {'__annotations__': base_ann})
         for f in (lambda: Base.is_fixed_byte_length(), lambda: Base.min_byte_length(), lambda: Base.max_byte_length(),
@@ -429,6 +446,9 @@ def run_val(t, v):
     put('p.bytes', enc)
     put('p.bytes2', E(lambda: bytes(x).hex()))
 
+    if not isinstance(t, str):
+        put('p.eqfresh', E(lambda: fresh_class_agreement(t, x)))
+
     def seqmixin():
         # the Sequence mix-in read paths: reversed(), `in`, index(), count() against indexing
         n = len(x)
@@ -439,6 +459,16 @@ def run_val(t, v):
             e = items[j]
             first = next(i for i in range(n) if items[i] == e)
             flags += [e in x, x.index(e) == first, x.count(e) == sum(1 for q in items if q == e)]
+        if kind(t) in ('vec', 'list') and isinstance(t[1], str) and t[1] != 'bool' and n:
+            # numbers that are not elements but whose bytes occur in the packed data at other alignments
+            w_ = mk_type(t[1]).type_byte_length()
+            raw = x.encode_bytes() + b'\x00' * w_
+            have = {int(e) for e in items}
+            for off in (1, w_ - 1, w_ + 1, 2 * w_ + 1):
+                if 0 < off and off + w_ <= len(raw):
+                    probe = int.from_bytes(raw[off:off + w_], 'little')
+                    if probe not in have:
+                        flags += [probe not in x, x.count(probe) == 0]
         if kind(t) in ('vec', 'list'):
             # concatenation `v + v`: bytes for byte elements, otherwise the list of the elements of both
             cat = x + x
@@ -639,6 +669,20 @@ _PREPARED = {}
 _ALIASES = {}
 
 
+def mk_val_with(T, t, v):
+    """a value of the class T (built for type S-expression t, possibly with fresh class objects) holding v"""
+    return T.view_from_backing(mk_val(t, v).get_backing())
+
+
+def prepare_setv(t, op):
+    """the value of a `setv` op: a container of ANOTHER class with the same layout (a freshly evaluated type), hashed"""
+    i = int(op[1])
+    et = t[1] if kind(t) in ('vec', 'list') else t[1:][i]
+    val = mk_val_with(mk_type(et, True), et, op[2])
+    val.hash_tree_root()
+    return val
+
+
 def prepare_seth(t, op):
     """the value of a `seth` op: a view of the element type (every second time: of an alias SUBCLASS of it,
     `class Alias(ElemType): pass`) whose root has been computed already"""
@@ -677,6 +721,30 @@ def apply_op(t, x, op):
             raise ValueError("unsupported")
     elif k == 'pop':
         x.pop()
+    elif k == 'setsx':
+        i, kk = int(op[1]), int(op[2])
+        vals = [elem_arg(t[1], q) for q in op[3][1:]]
+        x[i:i + kk] = vals
+    elif k == 'setc':
+        # a view of another but coercible type: other limit, or freshly evaluated (distinct) class objects of the same layout
+        i = int(op[1])
+        ft = op[2]
+        val = mk_val_with(mk_type(ft, True), ft, op[3])
+        if tk == 'cont':
+            setattr(x, 'f%d' % i, val)
+        else:
+            x[i] = val
+    elif k == 'setv':
+        i = int(op[1])
+        val = _PREPARED.pop(id(op), None)
+        if val is None:
+            val = prepare_setv(t, op)
+        if tk == 'cont':
+            setattr(x, 'f%d' % i, val)
+        else:
+            x[i] = val
+    elif k == 'setn':
+        setattr(x, op[1], 5)
     elif k == 'setb':
         i = int(op[1])
         raw = bytes.fromhex(op[2][1:])
@@ -742,9 +810,9 @@ def run_hist(t, v, ops, fresh=False):
     put('p.root0', E(lambda: x.hash_tree_root().hex()))
     for k, op in enumerate(ops):
         old_backing = x.get_backing()
-        if op[0] == 'seth':
+        if op[0] in ('seth', 'setv'):
             try:
-                _PREPARED[id(op)] = prepare_seth(t, op)   # built and hashed outside the measured section
+                _PREPARED[id(op)] = (prepare_seth if op[0] == 'seth' else prepare_setv)(t, op)   # built and hashed outside the measured section
             except Exception:
                 pass
         try:
@@ -785,6 +853,13 @@ def run_histd(t, ops):
     out.append('end.bytes=%s' % E(lambda: x.encode_bytes().hex()))
     out.append('end.root=%s' % E(lambda: x.hash_tree_root().hex()))
     return ';'.join(out)
+
+
+def fresh_class_agreement(t, x):
+    """x against an equal value whose type was built by evaluating the type expression again (distinct class objects):
+    ==, !=, hash()"""
+    y = mk_val_with(mk_type(t, True), t, parse(to_val(t, x)))
+    return ''.join('1' if f else '0' for f in (x == y, not (x != y), hash(x) == hash(y), y in {x} if True else True))
 
 
 def fresh_agreement(t, x):
@@ -949,6 +1024,27 @@ def run_tree(tr, cmds):
             out.append('%d.orig=%s' % (k, hexr(n)))
         elif op == 'summ':
             out.append('%d.summ=%s' % (k, EC(lambda: node_str(n.summarize_into(int(c[1]))()))))
+        elif op in ('vleaves', 'vsumm'):
+            import pyimpl_partial
+            try:
+                store = pyimpl_partial.Store(n)
+                vroot = store.node(bytes(n.merkle_root()))
+            except Exception as e:
+                out.append('%d.%s=import-err:%s' % (k, op, type(e).__name__))
+                continue
+            if store.ambiguous:
+                out.append('%d.%s=skip' % (k, op))
+                continue
+            if op == 'vleaves':
+                out.append('%d.vleaves=%s' % (k, E(lambda: ','.join(hexr(x) for x in leaf_iter(vroot)))))
+            else:
+                res = [None]
+
+                def vs():
+                    res[0] = vroot.summarize_into(int(c[1]))()
+                    return node_str(res[0])
+                out.append('%d.vsumm=%s' % (k, EC(vs)))
+                out.append('%d.vsprobes=%s' % (k, ','.join(EC(lambda q=q: node_str(res[0].getter(int(q)))) if res[0] is not None else 'err' for q in c[2:])))
         elif op == 'hcost':
             g, e, v = int(c[1]), int(c[2]) != 0, mk_tree(c[3])
 
@@ -1118,7 +1214,52 @@ def nav_sexp_type(t, k):
     return None
 
 
-def run_path(t, v, keys):
+def run_path_m(t, v, keys):
+    T, x, names = mk_method_named(t, v)
+    out = []
+
+    def build():
+        p = T / names[int(keys[0])]
+        tt = t[1:][int(keys[0])]
+        for k in keys[1:]:
+            p = p / mk_key(tt, k)
+            tt = nav_sexp_type(tt, k)
+        return p
+    try:
+        p = build()
+    except Exception:
+        return 'p.path=err'
+    out.append('p.path=ok')
+    g = E(lambda: str(int(p.gindex())))
+    out.append('p.g=%s' % g)
+    if g != 'err':
+        out.append('p.node=%s' % E(lambda: hexr(x.get_backing().getter(int(g)))))
+    out.append('p.dyn=%s' % E(lambda: str(int(p.gindex(x)))))
+
+    def navv():
+        y = p.navigate_view(x)
+        if isinstance(y, View):
+            return y.hash_tree_root().hex()
+        return 'notaview:' + type(y).__name__
+    out.append('p.navv=%s' % E(navv))
+    return ';'.join(out)
+
+
+METHOD_NAMES = ['copy', 'get', 'set', 'default', 'serialize', 'length', 'hash_tree_root', 'navigate_view']
+
+
+def mk_method_named(t, v):
+    """a container class whose fields carry the names of view methods (top level only), and the value v in it"""
+    _cont_counter[0] += 1
+    names = METHOD_NAMES[:len(t) - 1]
+    T = type('M%d' % _cont_counter[0], (Container,), {'__annotations__': {nm: mk_type(ft) for nm, ft in zip(names, t[1:])}})
+    x = T.view_from_backing(mk_val(t, v).get_backing())
+    return T, x, names
+
+
+def run_path(t, v, keys, method_names=False):
+    if method_names:
+        return run_path_m(t, v, keys)
     T = mk_type(t)
     out = []
 
@@ -1249,6 +1390,8 @@ def run_case(line):
         return run_path(c[1], None, c[2:])
     if k == 'pathv':
         return run_path(c[1], c[2], c[3:])
+    if k == 'pathm':
+        return run_path(c[1], c[2], c[3:], method_names=True)
     if k == 'uop':
         return run_uop(*c[1:])
     if k == 'uun':
